@@ -312,6 +312,7 @@ func c11(c *core.Ctx) {
 		}
 	})
 	c11Proposals(c)
+	c11OfferedLists(c)
 	c11FirstCalls(c)
 }
 
@@ -512,6 +513,71 @@ func init() {
 func c11FirstCalls(c *core.Ctx) {
 	freshFamily(c, "C11", "first-call-in-a-fresh-process", 1)
 	c.Require("fresh_process_cases_ok")
+}
+
+// several single-choice proposals in ONE SA payload whose transform containers are one-element VIEWS of shared
+// "offered" lists (all ciphers in one list, all PRFs in another, ...): each proposal must travel and convert back to
+// its own algorithms
+func c11OfferedLists(c *core.Ctx) {
+	c.Family("proposals-as-views-of-offered-lists", c.N(60, 6000), func(k *core.Case) {
+		n := 2 + k.R.Intn(3)
+		type choice struct{ e, i, p, d int }
+		var cs []choice
+		var encrL, prfL, integL, dhL message.TransformContainer
+		for j := 0; j < n; j++ {
+			ch := choice{k.R.Intn(3), k.R.Intn(3), k.R.Intn(3), k.R.Intn(2)}
+			cs = append(cs, ch)
+			src := newInfoKey(ch.e, ch.i, ch.p, ch.d)
+			pr, err := src.ToProposal()
+			if err != nil {
+				k.Violate("error", "ToProposal-error", err.Error(), nil)
+				return
+			}
+			encrL = append(encrL, pr.EncryptionAlgorithm...)
+			prfL = append(prfL, pr.PseudorandomFunction...)
+			integL = append(integL, pr.IntegrityAlgorithm...)
+			dhL = append(dhL, pr.DiffieHellmanGroup...)
+		}
+		if len(encrL) != n || len(prfL) != n || len(integL) != n || len(dhL) != n {
+			return
+		}
+		sa := &message.SecurityAssociation{}
+		for j := 0; j < n; j++ {
+			sa.Proposals = append(sa.Proposals, &message.Proposal{ProposalNumber: uint8(j + 1), ProtocolID: 1,
+				EncryptionAlgorithm: encrL[j : j+1], PseudorandomFunction: prfL[j : j+1], IntegrityAlgorithm: integL[j : j+1], DiffieHellmanGroup: dhL[j : j+1]})
+		}
+		k.Eval(1)
+		msg := message.NewMessage(1, 0, message.IKE_SA_INIT, false, true, 0, message.IKEPayloadContainer{sa})
+		var wire []byte
+		var err error
+		if pn := core.Try(func() { wire, err = msg.Encode() }); pn != nil || err != nil {
+			k.Violate("error", "offered-lists-encode-error", fmt.Sprint(err, pn), nil)
+			return
+		}
+		back, derr, dp := libDecodeKeep(wire)
+		if derr != nil || dp != nil {
+			k.Violate("error", "offered-lists-decode-error", fmt.Sprint(derr, dp), M{"wire": core.Hex(wire)})
+			return
+		}
+		bsa, ok := back.Payloads[0].(*message.SecurityAssociation)
+		if !ok || len(bsa.Proposals) != n {
+			k.Violate("mapping", "offered-lists-proposal-count", "", M{"wire": core.Hex(wire)})
+			return
+		}
+		for j, ch := range cs {
+			for which, pr := range []*message.Proposal{bsa.Proposals[j], sa.Proposals[j]} {
+				key, _, kerr := security.NewIKESAKey(pr, make([]byte, []int{128, 256}[ch.d]), []byte("nonces"), 1, 2)
+				if kerr != nil || key == nil || key.EncrInfo.GetKeyLength() != []int{16, 24, 32}[ch.e] || key.IntegInfo.TransformID() != []uint16{1, 2, 12}[ch.i] ||
+					key.PrfInfo.TransformID() != []uint16{1, 2, 5}[ch.p] || key.DhInfo.TransformID() != []uint16{2, 14}[ch.d] {
+					k.Violate("mapping", "proposal-built-from-a-shared-offered-list-does-not-convert-back", fmt.Sprintf("proposal %d of %d (%s): %v", j+1, n, []string{"after the wire", "the caller's own object after encoding"}[which], kerr), M{"wire": core.Hex(wire), "choices": fmt.Sprint(cs)})
+					return
+				}
+			}
+		}
+		k.Count("proposals_as_views_of_offered_lists", 1)
+		k.Distinct(fmt.Sprintf("offered|%d", n))
+	})
+	c.Require("proposals_as_views_of_offered_lists")
 }
 
 func c11Proposals(c *core.Ctx) {
